@@ -47,6 +47,7 @@ class Effects:
         self._callees = {}
         self._callstar = {}
         self._callers = None
+        self._fnptr = None
 
     # ------------------------------------------------------------------ call graph
     def call_sites(self, fn):
@@ -78,12 +79,46 @@ class Effects:
         self._callees[fn.id] = out
         return out
 
+    def fnptr_args(self):
+        """(callee id, parameter index) -> list of fnref nodes passed there by any call site of the unit"""
+        if self._fnptr is None:
+            self._fnptr = {}
+            for f in self.F.fns:
+                for x in ir.all_exprs(f):
+                    if x['k'] in ('call', 'ctor') and x.get('fn') is not None:
+                        for i, a in enumerate(x.get('args', [])):
+                            y = ir.strip(a)
+                            while y['k'] == 'cast':
+                                y = ir.strip(y['e'])
+                            if y['k'] == 'un' and y['op'] == '&':
+                                y = ir.strip(y['e'])
+                            if y['k'] == 'fnref':
+                                self._fnptr.setdefault((x['fn'], i), []).append(y)
+        return self._fnptr
+
+    def resolve_pm_all(self, fn, e):
+        """all possible callees of a member-pointer call: a local initialised from &Class::member, or a parameter that
+        receives &Class::member at the call sites of fn (context-insensitive)."""
+        pm = e.get('pm')
+        if not pm:
+            return []
+        p = ir.strip(pm['ptr'])
+        if p['k'] == 'var' and p.get('vk') == 'param':
+            return list(self.fnptr_args().get((fn.id, p.get('pi')), []))
+        r = self.resolve_pm(fn, e)
+        return [r] if r is not None else []
+
     def resolve_pm(self, fn, e):
-        """callee of (this->*method)(...) where `method` is a local initialised from &Class::member."""
+        """callee of (this->*method)(...) where `method` is a local initialised from &Class::member (or a parameter with a
+        single possible target)."""
         pm = e.get('pm')
         if not pm:
             return None
         p = ir.strip(pm['ptr'])
+        if p['k'] == 'var' and p.get('vk') == 'param':
+            cands = self.fnptr_args().get((fn.id, p.get('pi')), [])
+            ids = set(c.get('fn') for c in cands)
+            return cands[0] if len(ids) == 1 else None
         if p['k'] == 'var':
             d = self.decls(fn).get(p['id'])
             if d is not None and d.get('init') is not None:
@@ -103,11 +138,11 @@ class Effects:
             if g is not None:
                 out.append(g)
             elif e.get('pm'):
-                r = self.resolve_pm(fn, e)
-                if r is not None and r.get('fn') is not None:
-                    g2 = self.F.fn(r['fn'])
-                    if g2 is not None:
-                        out.append(g2)
+                for r in self.resolve_pm_all(fn, e):
+                    if r.get('fn') is not None:
+                        g2 = self.F.fn(r['fn'])
+                        if g2 is not None:
+                            out.append(g2)
         return out
 
     def user_calls(self, fn):
@@ -319,14 +354,23 @@ class Effects:
         # calls
         for e, g in self.call_sites(fn):
             if g is None and e.get('pm'):
-                r = self.resolve_pm(fn, e)
-                if r is not None and r.get('fn') is not None:
-                    g = self.F.fn(r['fn'])
-                    if g is not None:
-                        e = dict(e, obj=e['pm']['obj'])
-                if g is None and r is not None and is_user(r):
-                    s['user'].add(self.user_tag(r, e))
+                targets = self.resolve_pm_all(fn, e)
+                handled = False
+                for r in targets:
+                    if r.get('fn') is not None and self.F.fn(r['fn']) is not None:
+                        g2 = self.F.fn(r['fn'])
+                        e2 = dict(e, obj=e['pm']['obj'])
+                        gs = self.summary(g2)
+                        for p in gs['writes']:
+                            writes |= self.reroot(p, e2, fn)
+                        s['user'] |= gs['user']
+                        handled = True
+                    elif is_user(r):
+                        s['user'].add(self.user_tag(r, e))
+                        handled = True
+                if handled or targets:
                     continue
+                r = None
             if g is not None:
                 gs = self.summary(g)
                 for p in gs['writes']:
